@@ -386,7 +386,7 @@ def main(ck):
                                newton_iters=[int(x) for x in niter[:3]]) if nt else None,
             labels=labs)
 
-  ck.run_hypothesis(test, gc.cases(max_bodies=5 if ck.quick else 7), ck.budget(450, 6000), name='solvers')
+  ck.run_hypothesis(test, gc.cases(max_bodies=5 if ck.quick else 7), ck.budget(800, 9000), name='solvers')
   ck.extra['tolerances'] = dict(K_GRAD=K_GRAD, K_FORCE=K_FORCE, K_DATA=K_DATA, K_COST=K_COST, C_REP=C_REP, PGS_GAP=PGS_GAP)
   ck.extra['worst_observed'] = {k: float('%.4g' % v) for k, v in stats.items()}
 
